@@ -13,9 +13,11 @@ import WP.Model.Pool
      position earns nothing from before its liquidity was added (fresh_inside_zero);
    * the credited amount is ⌊L·Δ/2^64⌋ ≤ L·Δ/2^64, and 0 when L = 0 or on overflow, never more
      (credit_le).
-  The composition of these lemmas along an arbitrary history (that Δ between two updates equals the
-  sum of the in-range step growths) is checked on the implementation by the shadow-ledger oracle of
-  the history harness and by the model correspondence; it is not yet a Lean theorem.
+  The composition of these lemmas along a whole swap and along histories (Δ of the growth inside
+  equals the sum of the in-range step growths, each a pro-rata share) is proved in
+  WP/Props/GrowthPath.lean (`swap_fee_growth`) and WP/Props/ReachGrowth.lean (`history_fee_growth`);
+  the link to the amounts credited over several position updates is checked on the implementation
+  by the shadow-ledger oracle of the history harness and by the model correspondence.
 -/
 namespace WP.C07
 open WP
